@@ -12,6 +12,10 @@ CLAIMED = {
             "runtime monitor: real Provisioner.Schedule on generated worlds; every placement judged by an independent admissibility oracle (upstream nodeaffinity/toleration/pod-request code + first-principles host ports and sums) on every concrete node each launch option can become",
             "Thousands of generated worlds (catalogs with unavailable / overridden / reserved offerings, NodePools over all operators, daemonsets, managed nodes grown through the real provision→launch→register→initialize pipeline, unmanaged and deleting nodes) x pod batches x {preference policy, minValues policy, parallelism, ReservedCapacity}; each placement on an existing node is checked against provider/API ground truth, each new NodeClaim against every instance-type option x available compatible offering x concrete label assignment. Held-on-observed.",
             "Trusts the oracle (upstream k8s matchers, 300 lines of first-principles checks), the fake API server and the hostile provider. Volume limits / PV zones are not generated yet. One recorded finding (unsatisfiable conjunction represented as DoesNotExist)."),
+    "C03": ("exploration", "DESIGN.md §3 C03",
+            "runtime monitor: synchronous API-boundary monitors (every NodeClaim create / provider Create), an independent capacity-sum oracle on provider / API ground truth, deterministic interleavings of other controllers at the API-call boundaries of a reconcile, a concurrent pass under the Go race detector, a bounded-progress (settling) check, panic capture via utilruntime.PanicHandlers, quiescent-barrier invariants plus a porcupine diagnostic on a bare NodePoolState",
+            "Generated dynamic worlds with boundary limits on cpu / memory / nodes / an extended resource are driven for 3-8 rounds through the real Provisioner.Reconcile (batcher, Synced() gate, Schedule, CreateNodeClaims) and the real lifecycle controller against a hostile provider (largest, largest-by-limited-resource, random) with partial informer delivery, deletes and restarts; per-pool launched non-deleting capacity (Node capacity once registered, provider truth before) is compared with every limit after every provider Create and driver step. StaticCapacity worlds step the real static provisioning and deprovisioning, disruption (StaticDrift) with its queue, hash, nodeclaim-disruption, lifecycle and informer controllers in PRNG order, with other controllers interleaved at API-call boundaries and in real goroutines under -race, under replica and template edits, external deletes and API faults: NodeClaim count vs limits.nodes is checked synchronously at every create, settling at min(replicas, limit) within 40 fault-free rounds, and any panic is a violation. 8-16 goroutines also hammer a bare NodePoolState (Reserve grants checked against limit-(active+deleting+pending+reserved) at quiescent barriers). Five genuine defects found and fixed. Held-on-observed.",
+            "Trusts the fake API server, the provider's ground truth, the first-principles capacity-sum oracle and the harness actors standing in for kubelet and node termination; the hook client interleaves only at API-call boundaries of the hooked controllers; 'settles' is restated as 40 fault-free PRNG-ordered rounds; limits are never edited during a history; the ExceededBy safety net in Provisioner.Create never decided (mutant missed); porcupine verdict is diagnostic only."),
     "C04": ("exploration", "DESIGN.md §3 C04",
             "runtime monitor: lifecycle replay through the real provisioner + lifecycle controller + kubelet actor with a hostile provider; every pod on a new NodeClaim judged inadmissible on every active existing node (independent oracle, provider ground truth); API read log watched for scheduling passes while a NodeClaim is unlaunched",
             "Pods without inter-pod constraints or preferences are provisioned and deliberately left pending while each created NodeClaim moves at its own pace through created/launched/node-appeared/registered/initialized; provisioning is re-run after every step (3-8 passes per case) and each pod placed on new capacity must be inadmissible on all existing/in-flight nodes with their final load, nodes marked for deletion must not receive pods, and the real Provisioner.Reconcile must not reach a scheduling pass while a claim is unlaunched. Held-on-observed.",
